@@ -44,7 +44,7 @@ def fun(dom, f, var="t", domname="MCTests"):
 
 
 def write_mc(work, name, mc, pools, spec, statuses, maxtries=1, maxconc=1, rerun=None, stop=(), maxbounce=1, lazy=True, invariants=(),
-             constraint=None, postcondition=None, extra_cfg=""):
+             constraint=None, postcondition=None, extra_cfg="", dry=False):
     """pools: list of dict loc -> set(states)"""
     ws = mc["workers"]
     with open(os.path.join(work, name + ".tla"), "w") as f:
@@ -65,7 +65,8 @@ def write_mc(work, name, mc, pools, spec, statuses, maxtries=1, maxconc=1, rerun
         f.write("SPECIFICATION %s\nCONSTANTS\n W <- MCW\n WOrder <- MCWOrder\n Tests <- MCTests\n Root = \"t0\"\n FlatLeaves <- MCFlat\n ObjRoots <- MCObjRoots\n"
                 " Stateful <- MCStateful\n Setup <- MCSetup\n Gets <- MCGets\n Sets <- MCSets\n UnsetSets <- MCUnsetSets\n Removable <- MCRemovable\n"
                 " Closure <- MCClosure\n Unrestricted <- MCUnrestricted\n Incompatible <- MCIncompatible\n InitPools <- MCInitPools\n Statuses <- MCStatuses\n MaxTries = %d\n MaxConc = %d\n"
-                " RerunSet <- MCRerun\n StopSet <- MCStop\n MaxBounce = %d\n Lazy = %s\n" % (spec, maxtries, maxconc, maxbounce, "TRUE" if lazy else "FALSE"))
+                " RerunSet <- MCRerun\n StopSet <- MCStop\n MaxBounce = %d\n Lazy = %s\n DryRun = %s\n"
+                % (spec, maxtries, maxconc, maxbounce, "TRUE" if lazy else "FALSE", "TRUE" if dry else "FALSE"))
         for inv in invariants:
             f.write("INVARIANT %s\n" % inv)
         if constraint:
@@ -133,7 +134,7 @@ def algo_events(res):
                     break
     for i, e in enumerate(log):
         a = e["a"]
-        if a == "endrun" and i in recorded:
+        if a == "endrun" and i in recorded and e.get("s") != "LOST":
             e = dict(e, s=recorded[i])
         if a == "unset":
             # the removal request belongs to the reversal just recorded for the same worker
@@ -174,7 +175,8 @@ def validate_traces(work, inst, results, par=8, timeout=600):
                  maxconc=int(float(rp.get("max_concurrent_tries", max(maxtries, 1)))),
                  rerun=[s.upper() for s in str(rp.get("rerun_status", "")).replace(",", " ").split()] or None,
                  stop=[s.upper() for s in str(rp.get("stop_status", "")).replace(",", " ").split()],
-                 maxbounce=10 ** 6, lazy=inst.lazy, constraint="TrackProgress", postcondition="TraceAccepted")
+                 maxbounce=10 ** 6, lazy=inst.lazy, constraint="TrackProgress", postcondition="TraceAccepted",
+                 dry=str(rp.get("dry_run", "no")) == "yes")
         evs = algo_events(res)
         path = os.path.join(work, name + ".ndjson")
         with open(path, "w") as f:
